@@ -181,7 +181,7 @@ class TcpConnection():
                 tcp_connection.debug(f"[Socket-{self.sock_id}] Just sent "\
                                      f"{sent} bytes in _send_buffer")
             
-            except BlockingIOError:
+            except OSError:
                 tcp_connection.exception(f"[Socket-{self.sock_id}] An error "\
                                          f"has occurred")
 
@@ -282,7 +282,7 @@ class SctpConnection(TcpConnection):
                 tcp_connection.debug(f"[Socket-{self.sock_id}] Just sent "\
                                      f"{sent} bytes in _send_buffer")
 
-            except BlockingIOError:
+            except OSError:
                 tcp_connection.exception(f"[Socket-{self.sock_id}] An error "\
                                          f"has occurred")
 
